@@ -5,3 +5,12 @@ import "regexp"
 func VerifRegexps() map[string]*regexp.Regexp {
 	return map[string]*regexp.Regexp{"TokenRef": regexTokenRef, "SimpleFn": regexSimpleFn}
 }
+
+// VerifStrategies exposes the ordered factory list.
+func (f *StrategyFactory) VerifStrategies() []any {
+	r := make([]any, len(f.strategies))
+	for i, s := range f.strategies {
+		r[i] = s
+	}
+	return r
+}
